@@ -3,7 +3,7 @@
    Model: Model/TreeHash.v (tree_hash_cnt, the in-place tree_hash, tx_root, hashable_blob, block_id).
    Spec: Spec/TreeHash.v (recursive definition; PoW blob; id) with the textbook LEB128 of Spec/Leb128.v.
    The tree theorems hold for EVERY two-to-one hash `hc`, the block theorems for EVERY `H` (no property of Keccak is used). *)
-From MRS Require Import Proofs.TreeHashProofs Proofs.TreeHashKAT.
+From MRS Require Import Proofs.TreeHashProofs.
 From Coq Require Import String.
 Open Scope string_scope.
 Open Scope N_scope.
@@ -103,11 +103,8 @@ Proof. repeat split; vm_compute; reflexivity. Qed.
 Example C06_ex_cnt : tree_hash_cnt 3 = Ok 2 /\ tree_hash_cnt 4 = Ok 2 /\ tree_hash_cnt 5 = Ok 4 /\ tree_hash_cnt 8 = Ok 4 /\
   tree_hash_cnt 9 = Ok 8 /\ tree_hash_cnt (2 ^ 28) = Ok (2 ^ 27) /\ tree_hash_cnt 2 = Panic /\ tree_hash_cnt (2 ^ 28 + 1) = Panic.
 Proof. repeat split; vm_compute; reflexivity. Qed.
-(* mainnet block 202612 evaluated inside Coq: 513 listed transactions, root and PoW blob as computed by an independent
-   implementation, and the substituted identifier *)
-Example C06_ex_block_202612 :
-  exists root blob, kat202612 = Some (Ok root, Ok blob, Ok existing_block_id_202612, 513) /\ List.length root = 32%nat.
-Proof. eexists; eexists; split; [exact kat202612_value|reflexivity]. Qed.
+(* (mainnet block 202612 with its 513 hashes is evaluated inside Coq in Proofs/TreeHashKAT.v — part of the full build, not imported
+   here because re-checking ~1500 Keccak permutations with coqchk takes longer than the whole thorough tier) *)
 
 Check C06_cnt : forall n, 3 <= n -> n <= 2 ^ 28 ->
   tree_hash_cnt n = Ok (pow2_below n) /\ pow2_below n < n /\ n <= 2 * pow2_below n.
